@@ -65,4 +65,45 @@ let c22_handler inp out =
      | _ -> failwith "c22 out")
   | _ -> failwith "c22.compile"
 
+(* c22.pattern: input (content o e errOff errEnd), output (fc off end line col msg) | (none) | (crash).
+   Model: the extracted Util/PatternErr.pattern_error_range (parsePattern's arithmetic over Node.SourceRange).
+   Oracle, plain OCaml: ParseRegexp's offsets lie in the pattern text; the diagnostic lies inside the
+   pattern, starts at the offending byte (between the slashes) when the error starts inside the text, ends
+   at the error's end or at the closing slash, and its line/column are those of its offset. *)
+let c22_pattern inp out =
+  match lst inp with
+  | [content; o; e; po; pe] ->
+    let bytes_z = get_list get_z content in
+    let arr = Array.of_list (Stdlib.List.map int_of_z bytes_z) in
+    let o = get_int o and e = get_int e and po = get_int po and pe = get_int pe in
+    let tlen = e - o - 2 in
+    let path = [z_of_int 103] in
+    let nd = { LineCol.n_off = z_of_int o; LineCol.n_end = z_of_int e } in
+    let perr = { PatternErr.pe_off = z_of_int po; PatternErr.pe_end = z_of_int pe } in
+    (match lst out with
+     | [fc; off; en; line; col; msg] ->
+       let fc = get_int fc and off = get_int off and en = get_int en and line = get_int line and col = get_int col in
+       let model =
+         match PatternErr.pattern_error_range path (LineCol.line_offsets bytes_z) nd perr with
+         | Some r -> L [A "1"; put_z r.LineCol.sr_off; put_z r.LineCol.sr_end; put_z r.LineCol.sr_line; put_z r.LineCol.sr_col; msg]
+         | None -> L [A "panic"] in
+       let verdict =
+         if not (0 <= po && po <= pe && pe <= tlen) then "bad:regexp-error-offsets-outside-pattern-text"
+         else if fc <> 1 then "bad:origin-less-error"
+         else if not (o <= off && off <= en && en <= e) then "bad:pattern-error-outside-pattern"
+         else if po < tlen && off <> o + 1 + po then "bad:pattern-error-not-at-offending-byte"
+         else if po < tlen && po < pe && en <> o + 1 + pe then "bad:pattern-error-end-not-at-error-end"
+         else if po < tlen && po = pe && en <> e - 1 then "bad:empty-pattern-error-not-extended-to-closing-slash"
+         else if po >= tlen && (off <> o || en <> e) then "bad:pattern-error-at-end-not-reported-for-whole-pattern"
+         else begin
+           let (l, c) = spec_line_col arr off in
+           if l <> line || c <> col then "bad:line-column-mismatch" else "ok"
+         end in
+       (model, verdict)
+     | [A "none"] -> (L [A "some-diagnostic"], "bad:regexp-error-not-reported")
+     | [A "crash"] -> (L [A "terminates"], "bad:crash")
+     | _ -> failwith "c22.pattern out")
+  | _ -> failwith "c22.pattern"
+
 let () = Reg.register "c22.compile" c22_handler
+let () = Reg.register "c22.pattern" c22_pattern
